@@ -189,7 +189,7 @@ def parse_kani(out):
     if m:
         r["verif_time"] = float(m.group(1))
     # Check N: name \n - Status: X \n - Description: "..." \n - Location: file:line:col in function f
-    for m in re.finditer(r"Check \d+: ([^\n]+)\n\s+- Status: (\w+)\n\s+- Description: \"((?:[^\"\\]|\\.)*)\"\n(?:\s+- Location: ([^\n]*)\n)?", out):
+    for m in re.finditer(r"Check \d+: ([^\n]+)\n\s+- Status: (\w+)\n\s+- Description: \"([^\n]*)\"\n(?:\s+- Location: ([^\n]*)\n)?", out):
         name, st, desc, loc = m.group(1), m.group(2), m.group(3), m.group(4) or ""
         if ".cover." in name:
             r["covers"][desc] = st
